@@ -17,6 +17,8 @@ This module contains functions for loading and saving Strawberry Fields
 code.
 """
 # pylint: disable=protected-access,too-many-nested-blocks
+import inspect
+import re
 from decimal import Decimal
 from typing import Iterable, List, Sequence
 
@@ -112,9 +114,24 @@ def from_xir(xir_prog: xir.Program) -> Program:
                     gate(**params) | regrefs  # pylint:disable=expression-not-assigned
                 else:
                     params = []
-                    for p in op.params:
+                    # positional parameters whose declared default is a string are string-valued
+                    # options (e.g. the representation of Catstate), not symbolic parameters
+                    defaults = [
+                        par.default
+                        for par in list(inspect.signature(gate).parameters.values())[: len(op.params)]
+                    ]
+                    for i, p in enumerate(op.params):
                         if isinstance(p, Decimal):
                             params.append(float(p))
+                        elif isinstance(p, str) and i < len(defaults) and isinstance(defaults[i], str):
+                            params.append(p)
+                        elif isinstance(p, str):
+                            # a symbolic parameter (a free or measured parameter, or an expression
+                            # of them) is written as a string: parse it, with every name that is
+                            # not a function call as a symbol; par_convert then substitutes the
+                            # parameter objects of the program
+                            names = re.findall(r"[A-Za-z_]\w*\b(?!\s*\()", p)
+                            params.append(sympy.sympify(p, locals={n: sympy.Symbol(n) for n in names}))
                         elif isinstance(p, Iterable):
                             params.append(np.array(_listr(p)))
                         else:
